@@ -9,6 +9,7 @@
     every (serde call x node kind) cell. *)
 From Coq Require Import List NArith ZArith.
 Require Import Base Kinds Schema Varint Utf8 Sval Ser De AvroValue Encoding Denote Wf SerProofs SerLeafProofs SerSoundProofs.
+Require Import RecordProofs DeSafetyProofs SerSafetyProofs.
 Import ListNotations.
 
 Theorem C02_canonical : forall Sc n v st,
@@ -97,6 +98,17 @@ Theorem C02_decimal_fixed_fit : forall Sc p scale nm size s w z st,
   (sign_ext_len 15 (be16 (z * 10 ^ Z.of_N scale)) < 16 - N.to_nat size)%nat ->
   ser Sc (FDecimal p scale (Some (nm, size))) (SInt s w z) st = (Err EData, st).
 Proof. exact int_decimal_fixed_no_fit_rejected. Qed.
+
+(* never a panic: every Panic outcome of the serializer model is one of three sites, and each has
+   exactly one cause outside the property's domain -- a key out of range (impossible for a frozen
+   schema), a dirty buffer pool (impossible after any earlier call, C14), a Serialize impl calling
+   serialize_value before serialize_key *)
+Theorem C02_nopanic : forall Sc n v st p,
+  fst (ser Sc n v st) = Panic p ->
+  (p = PIndex /\ (schema_keys_okb Sc = false \/ keys_okb Sc n = false)) \/
+  (p = PPoolAssert /\ ~ pool_ok st) \/
+  (p = PSerKeyBeforeValue /\ sval_wf v = false).
+Proof. exact ser_panic_cause. Qed.
 
 (* why the hypotheses of C02_canonical are needed *)
 Check foreign_union_counterexample.
